@@ -9,6 +9,7 @@ class Scope:
         self.diverged = False
         self.mods = False
         self.locals = {}
+        self.muts = set()        # mutable locals declared in this scope
         self.parent = parent
 
     def lookup(self, name):
@@ -18,6 +19,29 @@ class Scope:
                 return s.locals[name]
             s = s.parent
         return None
+
+
+def assigned_locals(node, acc):
+    """Names of plain identifiers assigned anywhere inside an AST node (syntactic over-approximation)."""
+    if isinstance(node, Node):
+        if node.kind == 'assign' and node.lhs.kind == 'path' and len(node.lhs.segs) == 1:
+            acc.add(node.lhs.segs[0])
+        for v in node.__dict__.values():
+            assigned_locals(v, acc)
+    elif isinstance(node, (list, tuple)):
+        for v in node:
+            assigned_locals(v, acc)
+    return acc
+
+
+def tuple_proj(t, i, n):
+    """i-th component of the n-tuple t (Coq tuples are left-nested pairs)."""
+    if n == 1:
+        return t
+    r = t
+    for _ in range(n - 1 - i):
+        r = "(fst %s)" % r
+    return r if i == 0 else "(snd %s)" % r
 
 
 def is_simple(atom):
@@ -33,6 +57,7 @@ class FnTr:
         self.scope = Scope()
         self.tparams = [n for n, _ in fi.bounds]
         self.self_var = None
+        self.mut_names = {}
         self.mut_self = fi.self_kind == 'mut'
 
     def err(self, msg, node):
@@ -49,6 +74,29 @@ class FnTr:
             atom = self.fresh('v_' + rust_name)
         self.scope.locals[rust_name] = (atom, ty)
         return atom
+
+    # -- mutable locals
+    def is_mut_local(self, name):
+        sc = self.scope
+        while sc is not None:
+            if name in sc.locals:
+                return name in sc.muts or self.mut_names.get(name, False)
+            sc = sc.parent
+        return False
+
+    def carried(self, *nodes):
+        """Mutable locals visible here that the given AST nodes may assign (in a fixed order)."""
+        acc = set()
+        for n in nodes:
+            assigned_locals(n, acc)
+        return sorted(x for x in acc if self.scope.lookup(x) is not None and self.mut_names.get(x))
+
+    def rebind_carried(self, names, tup):
+        for i, x in enumerate(names):
+            _, ty = self.scope.lookup(x)
+            v = self.fresh('v_' + x)
+            self.emit(v, "cret %s" % tuple_proj(tup, i + 1, len(names) + 1))
+            self.scope.locals[x] = (v, ty)
 
     # -- steps
     def emit(self, var, m, mods=False):
@@ -371,6 +419,8 @@ class FnTr:
     def e_binop(self, e, expected):
         op = e.op
         if op in ('&&', '||'):
+            if self.carried(e.rhs):
+                self.err("assignment inside the right operand of && / || is not supported", e)
             a, ta = self.expr(e.lhs, T_BOOL)
             sc, (b, tb) = self.sub(lambda: self.expr(e.rhs, T_BOOL))
             if strip_ref(ta)[0] != T_BOOL or strip_ref(tb)[0] != T_BOOL:
@@ -429,6 +479,8 @@ class FnTr:
                 return "(%s_tag %s)" % (t[1], a), target
         if target[0] == 'char' and t == ('int', 8):
             return a, target
+        if target == t:
+            return a, target
         self.err("unsupported cast", e)
 
     def e_try(self, e, expected):
@@ -465,6 +517,27 @@ class FnTr:
         return 'tt', T_UNIT
 
     def e_assign(self, e, expected):
+        if e.lhs.kind == 'path' and len(e.lhs.segs) == 1 and e.lhs.segs[0] != 'self' and self.scope.lookup(e.lhs.segs[0]) is not None:
+            name = e.lhs.segs[0]
+            if not self.mut_names.get(name):
+                self.err("assignment to a local that is not `let mut`", e)
+            cur, ty = self.scope.lookup(name)
+            tyb = strip_ref(ty)[0]
+            if e.op == '=':
+                v, _ = self.expr(e.rhs, ty)
+            else:
+                op = e.op[:-1]
+                r, tr = self.expr(e.rhs, ty if op not in ('<<', '>>') else None)
+                if tyb[0] == 'bool' and op in ('&', '|', '^'):
+                    v = "(%s %s %s)" % ({'&': 'andb', '|': 'orb', '^': 'xorb'}[op], cur, r)
+                elif tyb[0] == 'int':
+                    v = self.arith(op, cur, r, tyb, e)
+                else:
+                    self.err("compound assignment on this type is not supported", e)
+            nv = self.fresh('v_' + name)
+            self.emit(nv, "cret %s" % v)
+            self.scope.locals[name] = (nv, ty)
+            return 'tt', T_UNIT
         place = self.self_place(e.lhs)
         if place is None or not place or not self.mut_self:
             self.err("assignment to anything but a field of `&mut self` is not supported", e)
@@ -556,6 +629,20 @@ class FnTr:
                 return "(Ok %s)" % a, ('adt', 'Result', (t, exr[2][1] if exr else T_UNKNOWN))
             a, t = self.expr(e.args[0], exr[2][1] if exr else None)
             return "(Err %s)" % a, ('adt', 'Result', (exr[2][0] if exr else T_UNKNOWN, t))
+        if len(segs) == 2 and n == 'from' and len(e.args) == 1 and segs[0] in ('char', 'u8', 'u16', 'u32', 'u64', 'usize'):
+            a, t = self.expr(e.args[0])
+            t = strip_ref(t)[0]
+            if segs[0] == 'char' and t in (('int', 8), ('intlit',)):
+                return a, T_CHAR
+            if segs[0] != 'char':
+                tgt = ('int', INT_BITS[segs[0]])
+                if t[0] == 'int' and t[1] <= tgt[1]:
+                    return a, tgt
+                if t[0] == 'bool':
+                    return "(N.b2n %s)" % a, tgt
+                if t[0] == 'char' and tgt[1] >= 32:
+                    return a, tgt
+            self.err("unsupported `%s::from` conversion" % segs[0], e)
         owner = None
         if len(segs) >= 2:
             owner = segs[-2]
@@ -649,7 +736,22 @@ class FnTr:
         # more references than the receiver has (auto-ref once more is already covered by j = k)
         return None
 
+    def e_range(self, e, expected):
+        self.err("range expressions are only supported as the receiver of `.contains(..)`", e)
+
     def e_mcall(self, e, expected):
+        inner = e.recv
+        while inner.kind == 'paren':
+            inner = inner.e
+        if inner.kind == 'range' and e.name == 'contains' and len(e.args) == 1:
+            x, tx = self.expr(e.args[0])
+            tx = strip_ref(tx)[0]
+            lo, tl = self.expr(inner.lo, tx)
+            hi, th = self.expr(inner.hi, tx)
+            if tx[0] not in ('int', 'char'):
+                self.err("`contains` on a range of a non-integer type", e)
+            upper = "(N.leb %s %s)" % (x, hi) if inner.inclusive else "(N.ltb %s %s)" % (x, hi)
+            return "(andb (N.leb %s %s) %s)" % (lo, x, upper), T_BOOL
         place = self.self_place(e.recv)
         r, rt = self.expr(e.recv)
         base, nrefs = strip_ref(rt)
@@ -674,6 +776,10 @@ class FnTr:
                 self.err("unsupported `.into()` conversion", e)
             if name == 'clone' and not e.args:
                 return r, base
+            if name in ('to_ascii_uppercase', 'to_ascii_lowercase') and not e.args and k in ('int', 'char'):
+                return "(%s %s)" % ('ascii_upper' if name.endswith('uppercase') else 'ascii_lower', r), base
+            if name in ('is_ascii_lowercase', 'is_ascii_uppercase', 'is_ascii_alphabetic', 'is_ascii_digit') and not e.args and k in ('int', 'char'):
+                return "(%s %s)" % (name, r), T_BOOL
             if k == 'int':
                 if name == 'count_ones' and not e.args:
                     return "(popcount %s)" % r, ('int', 32)
@@ -729,8 +835,9 @@ class FnTr:
         return self.finish_call(app, fnode.self_kind == 'mut', ret, place, e)
 
     # -- blocks, if, match ----------------------------------------------------------
-    def block_m(self, blk, expected):
-        """Translate a block in a child scope; returns (scope, M, type)."""
+    def block_m(self, blk, expected, carry=()):
+        """Translate a block in a child scope; returns (scope, M, type).  With `carry` (names of mutable
+        locals of enclosing scopes) the block's value is the tuple (value, carried locals after the block)."""
         def go():
             for st in blk.stmts:
                 if st.kind == 'let':
@@ -740,8 +847,12 @@ class FnTr:
                 if self.scope.diverged:
                     return None, T_NEVER
             if blk.tail is None:
-                return 'tt', T_UNIT
-            return self.expr(blk.tail, expected)
+                a, t = 'tt', T_UNIT
+            else:
+                a, t = self.expr(blk.tail, expected)
+            if carry and not self.scope.diverged:
+                a = "(%s)" % ', '.join([a] + [self.scope.lookup(x)[0] for x in carry])
+            return a, t
         sc, (atom, t) = self.sub(go)
         if sc.diverged:
             # the last emitted step is the diverging one; nothing after it runs
@@ -770,6 +881,9 @@ class FnTr:
         if p.kind == 'pwild':
             return
         if p.kind == 'ppath' and len(p.segs) == 1 and not self.is_const_name(p.segs[0]) and (p.segs[0][0].islower() or p.segs[0][0] == '_'):
+            if getattr(st, 'is_mut', False):
+                self.mut_names[p.segs[0]] = True
+                self.scope.muts.add(p.segs[0])
             if is_simple(a):
                 self.bind_local(p.segs[0], t, a)
             else:
@@ -782,7 +896,10 @@ class FnTr:
         return n in self.c.consts or (n in self.c.structs and self.c.structs[n].unit)
 
     def e_block(self, e, expected):
-        sc, m, t = self.block_m(e, expected)
+        carry = self.carried(e)
+        sc, m, t = self.block_m(e, expected, carry)
+        if carry:
+            return self.use_carry(carry, sc.mods, m, t, m[1] if m[0] == 'ret' else None)
         return self.use_m(sc, m, t)
 
     def use_m(self, sc, m, t):
@@ -804,17 +921,33 @@ class FnTr:
         c, tc = self.expr(e.cond, T_BOOL)
         if strip_ref(tc)[0] != T_BOOL:
             self.err("`if` condition is not bool", e)
-        sc1, m1, t1 = self.block_m(e.then, expected)
+        carry = self.carried(e.then, e.els)
+        sc1, m1, t1 = self.block_m(e.then, expected, carry)
         if e.els is None:
-            sc2, m2, t2 = Scope(), ('ret', 'tt'), T_UNIT
+            els_blk = Node('block', e.line, stmts=[], tail=None)
+            sc2, m2, t2 = self.block_m(els_blk, None, carry) if carry else (Scope(), ('ret', 'tt'), T_UNIT)
         else:
-            sc2, m2, t2 = self.block_m(self.as_block(e.els), expected if t1[0] in ('never',) or expected is not None else t1)
+            sc2, m2, t2 = self.block_m(self.as_block(e.els), expected if t1[0] in ('never',) or expected is not None else t1, carry)
         t = merge_types(t1, t2)
+        if carry:
+            return self.use_carry(carry, sc1.mods or sc2.mods, ('if', c, m1, m2), t,
+                                  "(if %s then %s else %s)" % (c, m1[1], m2[1]) if (m1[0] == 'ret' and m2[0] == 'ret') else None)
         if m1[0] == 'ret' and m2[0] == 'ret':
             return "(if %s then %s else %s)" % (c, m1[1], m2[1]), t
         sc = Scope()
         sc.mods = sc1.mods or sc2.mods
         return self.use_m(sc, ('if', c, m1, m2), t)
+
+    def use_carry(self, carry, mods, m, t, pure):
+        """Bind the tuple produced by a branching construct and rebind the carried mutable locals."""
+        if t == T_NEVER:
+            sc = Scope()
+            sc.mods = mods
+            return self.use_m(sc, m, t)
+        tup = self.fresh('t')
+        self.emit(tup, ("cret %s" % pure) if pure is not None else m, mods=mods)
+        self.rebind_carried(carry, tup)
+        return tuple_proj(tup, 0, len(carry) + 1), t
 
     def e_iflet(self, e, expected):
         arms = [Node('arm', e.line, pat=e.pat, guard=None, body=e.then),
@@ -837,13 +970,14 @@ class FnTr:
         arms = []
         t = T_NEVER
         mods = False
+        carry = self.carried(*[arm.body for arm in e.arms])
         for arm in e.arms:
             if arm.guard is not None:
                 self.err("match guards on non-integer scrutinees are not supported", arm)
 
             def go(arm=arm):
                 pat = self.pat(arm.pat, ts)
-                sc, m, bt = self.block_m(self.as_block(arm.body), expected)
+                sc, m, bt = self.block_m(self.as_block(arm.body), expected, carry)
                 return pat, sc, m, bt
             scx, (pat, sc, m, bt) = self.sub(go)
             if t[0] in ('never', 'unknown') and expected is None and bt[0] not in ('never',):
@@ -851,9 +985,14 @@ class FnTr:
             t = merge_types(t, bt)
             mods = mods or sc.mods
             arms.append((pat, m))
+        pure = None
         if all(m[0] == 'ret' for _, m in arms):
             body = ' '.join("| %s => %s" % (p, m[1]) for p, m in arms)
-            return "(match %s with %s end)" % (s, body), t
+            pure = "(match %s with %s end)" % (s, body)
+        if carry:
+            return self.use_carry(carry, mods, ('match', s, arms), t, pure)
+        if pure is not None:
+            return pure, t
         sc = Scope()
         sc.mods = mods
         return self.use_m(sc, ('match', s, arms), t)
@@ -901,6 +1040,7 @@ class FnTr:
         arms = []
         t = T_NEVER
         mods = False
+        carry = self.carried(*[arm.body for arm in e.arms])
         for arm in e.arms:
             def go(arm=arm):
                 cond, b = self.int_pat_cond(arm.pat, s, ty)
@@ -911,7 +1051,7 @@ class FnTr:
                     if gsc.steps:
                         self.err("match guards with calls or arithmetic are not supported", arm)
                     cond = g if cond is None else "(andb %s %s)" % (cond, g)
-                sc, m, bt = self.block_m(self.as_block(arm.body), expected)
+                sc, m, bt = self.block_m(self.as_block(arm.body), expected, carry)
                 return cond, sc, m, bt
             scx, (cond, sc, m, bt) = self.sub(go)
             if t[0] in ('never', 'unknown') and expected is None and bt[0] != 'never':
@@ -924,11 +1064,15 @@ class FnTr:
         if arms[-1][0] is not None:
             # exhaustive without a catch-all (e.g. 0..=255 on u8): the last arm needs no test
             arms[-1] = (None, arms[-1][1])
+        pure = None
         if all(m[0] == 'ret' for _, m in arms):
-            out = arms[-1][1][1]
+            pure = arms[-1][1][1]
             for c, m in reversed(arms[:-1]):
-                out = "(if %s then %s else %s)" % (c, m[1], out)
-            return out, t
+                pure = "(if %s then %s else %s)" % (c, m[1], pure)
+        if carry:
+            return self.use_carry(carry, mods, ('ifchain', arms), t, pure)
+        if pure is not None:
+            return pure, t
         sc = Scope()
         sc.mods = mods
         return self.use_m(sc, ('ifchain', arms), t)
